@@ -38,15 +38,36 @@ structure St where
   loc : Array Int
   glob : Array Int
   cells : Array Int
-  fs : List (Int × Int)
+  /-- heap of loop-header variables and body-declared captured variables: Go 1.20 semantics — the variables a `for` /
+      `range` header declares are created once per EXECUTION of the statement (shared by its iterations, fresh when an
+      enclosing loop runs the statement again); a variable declared in a loop body is fresh in every iteration -/
+  hp : Array Int := #[]
+  /-- per frame: heap index of header variable K (slots 0..2), V (3..5) and the hidden range index (6..8) by loop depth -/
+  hdr : Array Nat := #[0, 0, 0, 0, 0, 0, 0, 0, 0]
+  /-- closures `func() int { v += step; return v }`: (heap index of the captured variable, step) -/
+  fs : List (Nat × Int)
+  /-- pointers `&v` -/
+  ps : List Nat := []
   out : List String
   err : Bool := false
   deriving Inhabited
 
+/-- variables 4..6 are the header variables K of the loops at depth 0..2, 29..31 their range values V, 32..34 the hidden
+    range indices: they live in the heap -/
+def hdrSlot (v : Nat) : Option Nat :=
+  if 4 ≤ v && v ≤ 6 then some (v - 4) else if 29 ≤ v && v ≤ 31 then some (3 + v - 29) else if 32 ≤ v && v ≤ 34 then some (6 + v - 32)
+  else none
+
 def St.get (s : St) (v : Nat) : Int :=
-  if v < 8 then s.loc.getD v 0 else if v < 12 then s.glob.getD (v - 8) 0 else if v == 12 then 0 else s.cells.getD (v - 13) 0
+  match hdrSlot v with
+  | some k => s.hp.getD (s.hdr.getD k 0) 0
+  | none =>
+    if v < 8 then s.loc.getD v 0 else if v < 12 then s.glob.getD (v - 8) 0 else if v == 12 then 0 else s.cells.getD (v - 13) 0
 
 def St.set (s : St) (v : Nat) (x : Int) : St :=
+  match hdrSlot v with
+  | some k => { s with hp := s.hp.setIfInBounds (s.hdr.getD k 0) x }
+  | none =>
   if v < 8 then { s with loc := s.loc.setIfInBounds v x }
   else if v < 12 then { s with glob := s.glob.setIfInBounds (v - 8) x }
   else if v == 12 then s else { s with cells := s.cells.setIfInBounds (v - 13) x }
@@ -155,6 +176,18 @@ def lvTrace (lv id j : Nat) (s : St) : St :=
   | 6 => s
   | _ => s.print s!"i {id} {j}"
 
+/-- `runfs(id)`: call every stored closure in order; closures that captured the same variable see each other's writes -/
+def runFs (id : Nat) (s : St) : St :=
+  s.fs.foldl (fun (s : St) (f : Nat × Int) =>
+    let v := s.hp.getD f.1 0 + f.2
+    { s with hp := s.hp.setIfInBounds f.1 v, out := s!"f {id} {v}" :: s.out }) s
+
+/-- `runps(id)`: `*p += 1; println("q", id, *p)` for every stored pointer -/
+def runPs (id : Nat) (s : St) : St :=
+  s.ps.foldl (fun (s : St) (r : Nat) =>
+    let v := s.hp.getD r 0 + 1
+    { s with hp := s.hp.setIfInBounds r v, out := s!"q {id} {v}" :: s.out }) s
+
 def doAct (P : Prog) (id : Nat) (s : St) : St :=
   match P.acts.getD id [] with
   | [0, dst, x, y, k, p] =>
@@ -216,12 +249,26 @@ def doAct (P : Prog) (id : Nat) (s : St) : St :=
         (s, (xv + 7 * yv + zv).tmod 1009)
     (s.set dst v).print s!"a {id} {v}"
   | [5, x, k, _, _, _] =>
-    if s.fs.length < 6 then { s with fs := s.fs ++ [(s.get x, (k : Int))] } else s
-  | [6, _, _, _, _, _] =>
-    let (fs, out) := s.fs.foldl (fun (acc : List (Int × Int) × List String) (f : Int × Int) =>
-      let v := f.1 + f.2
-      (acc.1 ++ [(v, f.2)], s!"f {id} {v}" :: acc.2)) ([], s.out)
-    { s with fs := fs, out := out }
+    -- `{ j := x; push(id, func() int { j += k; return j }) }`: a body-declared variable, fresh every time
+    if s.fs.length < 12 then { s with hp := s.hp.push (s.get x), fs := s.fs ++ [(s.hp.size, (k : Int))] } else s
+  | [6, _, _, _, _, _] => runFs id s
+  | [10, ld, k0, isRange, _, _] =>
+    -- the header of a loop statement is executed: fresh header variables for this execution
+    let n := s.hp.size
+    let s := { s with hp := ((s.hp.push k0).push 0).push 0,
+                      hdr := ((s.hdr.setIfInBounds ld n).setIfInBounds (3 + ld) (n + 1)).setIfInBounds (6 + ld) (n + 2) }
+    if isRange == 1 then s else s
+  | [11, v, step, _, _, _] =>
+    -- `push(id, func() int { H += step; return H })` capturing header variable `v` (4..6 K, 29..31 V)
+    match hdrSlot v with
+    | some k => if s.fs.length < 12 then { s with fs := s.fs ++ [(s.hdr.getD k 0, (step : Int))] } else s
+    | none => { s with err := true }
+  | [12, v, _, _, _, _] =>
+    -- `ppush(id, &H)`
+    match hdrSlot v with
+    | some k => if s.ps.length < 12 then { s with ps := s.ps ++ [s.hdr.getD k 0] } else s
+    | none => { s with err := true }
+  | [13, _, _, _, _, _] => runPs id s
   | [7, dst, x, k, _, _] =>
     let v := ((s.get x + 1) * 2 + k).tmod 1009
     (s.set dst v).print s!"a {id} {v}"
@@ -250,7 +297,7 @@ def doCall (P : Prog) (run : FnRun) (f : Nat) (s : St) : St :=
   match P.calls.getD f [] with
   | [callee, arg, dst] =>
     match run callee (s.get arg) s with
-    | some (r, s') => ({ s' with loc := s.loc }).set dst r
+    | some (r, s') => ({ s' with loc := s.loc, hdr := s.hdr }).set dst r
     | none => { s with err := true }
   | _ => { s with err := true }
 
@@ -263,7 +310,7 @@ def runWith (P : Prog) (ev : Env St → Stmt → St → Option (Sig × St)) : Na
     match P.fns[j]? with
     | none => none
     | some body =>
-      match ev (mkEnv P (runWith P ev d)) body { s with loc := freshLoc arg } with
+      match ev (mkEnv P (runWith P ev d)) body { s with loc := freshLoc arg, hdr := #[0, 0, 0, 0, 0, 0, 0, 0, 0] } with
       | some (_, s') => if s'.err then none else some (s'.get 1, s')
       | none => none
 
@@ -278,8 +325,10 @@ def showRun (r : Option (Int × St)) : String :=
   | none => "model-failure"
   | some (v, s) =>
     let cells := " ".intercalate (s.cells.toList.map toString)
-    let fsl := s.fs.map fun f => s!"f 0 {f.1 + f.2}"
-    ";".intercalate (s.out.reverse ++ [s!"r {v} {s.glob.getD 0 0} {s.glob.getD 1 0} {s.glob.getD 2 0} {s.glob.getD 3 0}"] ++ fsl ++ [s!"m {cells}"])
+    let s1 := { s with out := s!"r {v} {s.glob.getD 0 0} {s.glob.getD 1 0} {s.glob.getD 2 0} {s.glob.getD 3 0}" :: s.out }
+    -- main: runfs(0); runps(0); runfs(1) — after all loops have ended
+    let s2 := runFs 1 (runPs 0 (runFs 0 s1))
+    ";".intercalate (s2.out.reverse ++ [s!"m {cells}"])
 
 def wfProg (P : Prog) : Bool := P.fns.all wf
 
